@@ -69,6 +69,8 @@ ASSUME = ["genetic positions per chromosome are non-decreasing (documented input
           "uninitialised memory may hold any bit pattern: numpy.empty is patched (harness process only, during library calls) to "
           "return NaN-filled float arrays and sentinel-filled integer arrays",
           "block values are linear in genotypes and effects (numpy dot), so a basis of genotypes decides layer H for all genotypes",
+          "genomic models carry 0, 1 or 2 rows of non-zero miscellaneous random effects (u_misc); block values are defined from the "
+          "marker effects u_a only",
           "diploid phased genotypes (ploidy = number of phases = 2); positions, effects and block values are dyadic rationals",
           "mc/compat.py restores removed numpy names only"]
 
@@ -458,8 +460,14 @@ def make_pgmat(lo, Gn):
     return pg
 
 
-def make_gpmod(un):
-    return DenseAdditiveLinearGenomicModel(beta=numpy.zeros((1, un.shape[1])), u_misc=None, u_a=un.copy(), trait=None)
+U_MISC = [[7.25, -3.5], [11.0, 0.75]]      # miscellaneous random effects (not marker effects): must never enter a block value
+
+
+def make_gpmod(un, nmisc=0):
+    """Additive linear genomic model with `nmisc` rows of non-zero miscellaneous random effects in front of the marker
+    effects (model.u = [u_misc; u_a]); block values are defined from u_a only."""
+    um = None if nmisc == 0 else numpy.array([r[:un.shape[1]] for r in U_MISC[:nmisc]], dtype="float64")
+    return DenseAdditiveLinearGenomicModel(beta=numpy.zeros((1, un.shape[1])), u_misc=um, u_a=un.copy(), trait=None)
 
 
 def call_site(site, lo, total, Gn, un, pg, gp):
@@ -523,10 +531,13 @@ def run_H(spec, ctx):
     seed = ctx.seed
     p = sum(lens)
     G, u, Gn, un, pre = basis(p, seed)
-    gp = make_gpmod(un)
+    gp3 = [make_gpmod(un, q) for q in range(3)]
     tot_exp = R.total_values(pre)
     ctx.flag(f"H:{lens}")
-    for lay in layouts(lens)[a:b]:
+    for li, lay in enumerate(layouts(lens)[a:b]):
+        nmisc = (a + li + seed) % 3              # model variant: 0, 1 or 2 miscellaneous-effect rows
+        gp = gp3[nmisc]
+        ctx.count(f"H:layouts-with-{nmisc}-misc-effect-rows")
         lo = Layout(lay, seed)
         pg = make_pgmat(lo, Gn)
         lid = lay_id(lay)
@@ -539,8 +550,9 @@ def run_H(spec, ctx):
             if any(has_empty_bin(ch, k) for ch, k in zip(lay, nbl)):
                 ctx.count("H:(layout,total)-with-an-empty-equal-width-bin")
             for si, site in enumerate(SITES):
-                case = dict(layer="H", lay=[list(ch) for ch in lay], total=total, site=site, seed=seed)
-                desc = f"positions {[lo.genpos[x:y].tolist() for x, y in zip(lo.st, lo.sp)]} nhaploblk {total} (library partition {labels})"
+                case = dict(layer="H", lay=[list(ch) for ch in lay], total=total, site=site, nmisc=nmisc, seed=seed)
+                desc = (f"positions {[lo.genpos[x:y].tolist() for x, y in zip(lo.st, lo.sp)]} nhaploblk {total} (library partition {labels}; "
+                        f"model with {nmisc} misc-effect rows)")
                 ctx.evaluations += 1
                 ctx.transitions += 1
                 sid = b"H" + lid + bytes([total, si])
@@ -996,7 +1008,7 @@ def run_L(spec, ctx):
     ctx.flag(f"L:{lens}")
     gps = []
     for u in effs:
-        gps.append(make_gpmod(numpy.array([[float(x) for x in r] for r in u], dtype="float64")))
+        gps.append(make_gpmod(numpy.array([[float(x) for x in r] for r in u], dtype="float64"), len(gps) % 3))   # 0/1/2 misc rows
     for lay in layouts(lens)[a:b]:
         lo = Layout(lay, seed)
         lid = lay_id(lay)
@@ -1066,6 +1078,8 @@ def finalize(ctx, tier, seed):
     # exact size of the partition space: nothing silently skipped
     nlay = lambda lens: math.prod(math.comb(L + NGRID - 1, NGRID - 1) for L in lens)
     assert c.get("B:cases", 0) == sum(2 * 3 ** (L - 1) for L in range(1, 7)), c.get("B:cases")
+    for q in range(3):
+        assert c.get(f"H:layouts-with-{q}-misc-effect-rows", 0) > 100, q
     assert "R" in ctx.flags and c.get("R:cases", 0) == 110 * 3 * 6 * 2, c.get("R:cases")
     assert c.get("R:cases-where-multiplied-bound-rounds-below-the-tip", 0) >= 20, c.get("R:cases-where-multiplied-bound-rounds-below-the-tip")
     assert c.get("V:histories", 0) >= 3 * sum(v_space(name, seed)[3] for (name,) in V), c.get("V:histories")
@@ -1095,7 +1109,7 @@ def replay(case, ctx):
         lo = Layout(lt, seed)
         G, u, Gn, un, pre = basis(lo.p, seed)
         pg = make_pgmat(lo, Gn)
-        gp = make_gpmod(un)
+        gp = make_gpmod(un, case.get("nmisc", 0))
         nbl, labels, rn = lib_partition(lo, case["total"])
         desc = f"positions {[lo.genpos[x:y].tolist() for x, y in zip(lo.st, lo.sp)]} nhaploblk {case['total']} (library partition {labels})"
         ctx.guard(lambda: _h_one(case["site"], lo, case["total"], Gn, un, pg, gp, R.block_values(pre, rn), R.total_values(pre), desc),
@@ -1118,7 +1132,7 @@ def replay(case, ctx):
         genos = l_genotypes(lo.p, seed, case.get("tier", ctx.tier))
         G, u = genos[case["gi"]], effs[case["ei"]]
         pg = make_pgmat(lo, numpy.array(G, dtype="int8"))
-        gp = make_gpmod(numpy.array([[float(x) for x in r] for r in u], dtype="float64"))
+        gp = make_gpmod(numpy.array([[float(x) for x in r] for r in u], dtype="float64"), case["ei"] % 3)
         nbl, labels, rn = lib_partition(lo, case["total"])
         l_case(ctx, lo, case["total"], labels, rn, G, u, pg, gp, case)
     else:
